@@ -166,6 +166,20 @@ class Reasoner:
                         lo = max(lo, ri[0])
             if f.endswith("::count_ones") or f.endswith("::leading_zeros") or f.endswith("::trailing_zeros"):
                 lo, hi = 0, 128
+            last = f.rsplit("::", 1)[-1]
+            if last in ("len", "capacity", "remaining", "count") and (self.ty(a) in (None, "usize")) and (
+                    f.startswith("std::") or f.startswith("arrayvec::") or f.startswith("<std::") or "ExactSizeIterator" in f):
+                # sizes of in-memory collections
+                lo, hi = max(lo, 0), min(hi, 2 ** 63 - 1)
+        elif k == "unwrapped":
+            pb = self.payload_bounds(a[1])
+            if pb:
+                ilo = self.lin_interval(pb[0]) if pb[0] is not None else None
+                ihi = self.lin_interval(pb[1]) if pb[1] is not None else None
+                if ilo:
+                    lo = max(lo, ilo[0])
+                if ihi:
+                    hi = min(hi, ihi[1])
         return lo, hi
 
     def cv(self, e):
@@ -298,6 +312,9 @@ class Reasoner:
         """linear form of the length of slice-valued expression x"""
         x = _strip_reborrow(x)
         k = x[0]
+        n = self._array_len(x)
+        if n is not None:
+            return Lin.const(n)
         if k == "unsize":
             inner = _strip_reborrow(x[1])
             t = self.ty(inner) or self.ty(x[1]) or ""
@@ -362,6 +379,22 @@ class Reasoner:
                 if r is not None:
                     return r
         return Lin.atom(("len", x))
+
+    def _array_len(self, x):
+        """N if x is (a reference to) an array [T; N] by its static type"""
+        for y in (x, x[2] if x[0] == "ref" else None, x[1] if x[0] in ("unsize", "deref") else None):
+            if y is None:
+                continue
+            t = self.ty(y)
+            if y[0] == "k":
+                t = y[1]
+            if not t:
+                continue
+            t = t.strip()
+            m = re.match(r"^(?:&(?:'\w+ )?(?:mut )?)*\[.*; (\d+)\]$", t)
+            if m:
+                return int(m.group(1))
+        return None
 
     def range_len(self, s, rng, depth):
         rng = _strip_reborrow(rng)
@@ -710,13 +743,43 @@ class Reasoner:
                     if lb is not None and ia and ia[0] >= 0 and ib and ib[0] >= 1:
                         new.append(Lin.atom(a).sub(lb).add(Lin.const(1)))
             elif k == "unwrapped":
-                u = self.payload_upper(a[1])
-                if u is not None:
-                    new.append(Lin.atom(a).sub(u))
+                pb = self.payload_bounds(a[1])
+                if pb:
+                    if pb[1] is not None:
+                        new.append(Lin.atom(a).sub(pb[1]))
+                    if pb[0] is not None:
+                        new.append(pb[0].sub(Lin.atom(a)))
             for l in new:
                 out.append(l)
                 work.extend(l.co.keys())
         return out
+
+    def payload_bounds(self, x):
+        """(lower Lin or None, upper Lin or None) of the payload of Option-valued x"""
+        x = _strip_reborrow(x)
+        if x[0] != "call" or not x[2]:
+            return None
+        f = x[1]
+        raw_ok = f in ("std::iter::range::next",) or f.endswith("as std::iter::Iterator>::next") and "Range" in f
+        if raw_ok:
+            it = _strip_reborrow(x[2][0])
+            if it[0] == "ref":
+                it = it[2]
+            if it[0] == "var":
+                it = self.ir.var_init(it[1])
+            n = 0
+            while it is not None and it[0] == "call" and it[2] and n < 4 and (
+                    it[1].endswith("::into_iter") or it[1].endswith("IntoIterator>::into_iter")):
+                it = _strip_reborrow(it[2][0])
+                n += 1
+            if it is not None and it[0] == "agg" and it[1] == "adt" and (it[2] or "").endswith("::Range"):
+                fl = dict(it[4])
+                a, b = self.lin(fl.get("start")), self.lin(fl.get("end"))
+                return (a, b.sub(Lin.const(1)) if b is not None else None)
+        u = self.payload_upper(x)
+        if u is not None:
+            return (Lin.const(0), u)
+        return None
 
     def payload_upper(self, x):
         """upper bound (Lin) of the payload of Option-valued x, for a few std producers"""
